@@ -64,6 +64,22 @@ DescFaults(seed) ==
     UNION {{<<<<"delchar", i>>>>, <<<<"dupchar", i>>>>} \cup {<<<<"setchar", i, c>>>> : c \in Alphabet} : i \in 0..(seed.n - 1)}
     \cup {<<<<"trunc", k>>>> : k \in 0..(seed.n - 1)}
 
+(* grown inputs: structures the format allows at sizes no mutation of a small seed reaches - nesting as deep as *)
+(* the attribute length permits, a descriptor with as many wide parameters as fit into 255 slots and beyond,    *)
+(* a method whose every bytecode offset carries a label, CLASS lines nested line by line.  The seed names the   *)
+(* structure (`grow`), the script its size.                                                                      *)
+GrowSizes(kind, tier) ==
+    CASE kind \in {"anno_array", "anno_anno"} -> {1, 50, 300, 5000} \cup (IF tier = 0 THEN {100000} ELSE {20000, 100000, 400000})
+      [] kind = "ifc_args" -> {1, 126, 127, 128, 200, 255}
+      [] kind = "method_args" -> {127, 128, 255, 256}
+      [] kind = "labels" -> {0, 1, 2}             \* 0: every pc has a line number; 1: plus an exception range ending at code_length; 2: plus a local variable ending there
+      [] kind \in {"enigma_nest", "tiny_nest"} -> {1, 50, 3000} \cup (IF tier = 0 THEN {50000} ELSE {20000, 200000})
+      [] kind \in {"fdesc_dims", "mdesc_dims"} -> {254, 255, 256, 100000}
+      [] kind = "desc_args" -> {255, 256, 100000}
+      [] OTHER -> {}
+IsGrow(seed) == "grow" \in DOMAIN seed /\ seed.grow # ""
+GrowFaults(seed, tier) == {<<<<"grow", seed.grow, k>>>> : k \in GrowSizes(seed.grow, tier)}
+
 IsBinary(seed) == Len(seed.spans) > 0
 IsDesc(seed) == seed.target \in {"fdesc", "mdesc", "rdesc"}
 
@@ -71,7 +87,8 @@ IsDesc(seed) == seed.target \in {"fdesc", "mdesc", "rdesc"}
 ScriptOK(seed, ops) ==
     \A k \in 1..Len(ops) :
         LET o == ops[k] IN
-        CASE o[1] = "set" -> o[2] >= 0 /\ o[2] < Len(seed.spans) /\ Settable(seed.spans[o[2] + 1])
+        CASE o[1] = "grow" -> IsGrow(seed) /\ o[2] = seed.grow /\ o[3] >= 0
+          [] o[1] = "set" -> o[2] >= 0 /\ o[2] < Len(seed.spans) /\ Settable(seed.spans[o[2] + 1])
           [] o[1] = "trunc" -> o[2] >= 0 /\ o[2] <= seed.n
           [] o[1] \in {"delchar", "dupchar", "setchar"} -> o[2] >= 0 /\ o[2] < seed.n
           [] OTHER -> o[2] >= 0 /\ o[2] < Len(seed.cells)
